@@ -55,20 +55,22 @@ Section AeroState.
     | VVec v => quat_inv_trans q v
     end.
 
-  (* alpha, beta in radians as used for the rate frames (lines 196-210) *)
-  Definition rate_angles (vin : vel_in) : T * T :=
+  (* alpha, beta in radians as used for the rate frames (lines 196-212); with a velocity vector the angles are those of the
+     velocity relative to the local wind (the wind is Earth-fixed, the vector body-fixed) *)
+  Definition rate_angles (q : quat T) (v_wind : v3 T) (vin : vel_in) : T * T :=
     match vin with
     | VMag _ a b => (radians a, radians b)
-    | VVec v => (fatan2 (vz v) (vx v),
-                 fasin (vy v / nsqrt (vx v * vx v + vy v * vy v + vz v * vz v)))
+    | VVec v0 => let v := vsub v0 (quat_trans q v_wind) in
+                 (fatan2 (vz v) (vx v),
+                  fasin (vy v / nsqrt (vx v * vx v + vy v * vy v + vz v * vz v)))
     end.
 
-  Definition parse_rates (vin : vel_in) (fr : frame_in) (w_raw : v3 T) : v3 T :=
+  Definition parse_rates (q : quat T) (v_wind : v3 T) (vin : vel_in) (fr : frame_in) (w_raw : v3 T) : v3 T :=
     match fr with
     | FBody => w_raw
-    | FStab => let '(a, _) := rate_angles vin in
+    | FStab => let '(a, _) := rate_angles q v_wind vin in
                quat_inv_trans (quat_conj (euler_to_quat fcos fsin n0 a n0)) w_raw
-    | FWind => let '(a, b) := rate_angles vin in
+    | FWind => let '(a, b) := rate_angles q v_wind vin in
                (* body axes are yawed by -beta relative to the wind axes (beta = asin(v/V)) *)
                quat_inv_trans (quat_conj (euler_to_quat fcos fsin n0 a (- b))) w_raw
     end.
